@@ -12,10 +12,10 @@ type Gen struct {
 	R *rand.Rand
 	U *Universe
 	// per document
-	frags   []Frag
-	vars    map[string]VarDef
-	given   ValMap
-	nfrag   int
+	frags    []Frag
+	vars     map[string]VarDef
+	given    ValMap
+	nfrag    int
 	Abstract bool // allow fragments with interface / union conditions and abstract-typed fields (reflection strategy only)
 }
 
@@ -52,8 +52,8 @@ func (g *Gen) RandomUniverse() *Universe {
 			fn := fmt.Sprintf("f%d", f)
 			var t *TRef
 			switch g.pick(10) {
-		case 9:
-			t = listOf(listOf(named(names[1+g.pick(nt)])))
+			case 9:
+				t = listOf(listOf(named(names[1+g.pick(nt)])))
 			case 0, 1:
 				t = named("String")
 			case 2:
